@@ -266,7 +266,7 @@ pub fn run(ctx: &mut Ctx) {
     {
         let mut pt = ctx.prng("thresholds");
         let idlens = [31usize, 32, 33, 255, 256, 257, 4095, 4096, 8190];
-        let mlens = [8183usize, 8185, 8192, 65535, 65536, 70001, 1 << 20];
+        let mlens = [8183usize, 8185, 8192, 65535, 65536, 70001, 1 << 20, (1 << 21) - 200, 1 << 21, (1 << 24) + 1];
         let reps = ctx.n(1, 6);
         let mut ti = 0u64;
         for _ in 0..reps {
